@@ -1,11 +1,18 @@
 #!/bin/bash
-# usage: tools/seedtest.sh <patch.diff> <tier> <check id>...   applies the patch to /repo, runs the checks, reverts.
+# usage: tools/seedtest.sh <patch.diff> <tier> <check id>...
+# Runs the checks against a scratch copy of /repo HEAD with the patch applied (VERIF_REPO / VERIF_WORK point the checks at it),
+# so /repo itself is never touched and other runs are not disturbed.  The copy and its build output are removed afterwards.
 patch=$1; tier=$2; shift 2
-cd /repo || exit 9
-if ! git diff --quiet; then echo "/repo is dirty"; exit 9; fi
-git apply "$patch" || { echo "patch does not apply"; exit 9; }
-trap 'git -C /repo checkout -- . ; git -C /repo clean -fdq crates' EXIT
+tag=$(basename $(dirname "$patch"))_$$
+wt=/tmp/seedrun/$tag
+mkdir -p /tmp/seedrun
+git -C /repo worktree add --detach $wt HEAD >/dev/null 2>&1 || { echo "worktree failed"; exit 9; }
+cp /repo/Cargo.lock $wt/ 2>/dev/null
+trap 'git -C /repo worktree remove --force '$wt' >/dev/null 2>&1; rm -rf /tmp/seedrun/'$tag'.work' EXIT
+( cd $wt && git apply "$patch" ) || { echo "patch does not apply"; exit 9; }
 cd /verif
+export VERIF_REPO=$wt VERIF_WORK=/tmp/seedrun/$tag.work
+mkdir -p $VERIF_WORK
 for id in "$@"; do
   out=$(./check $id --tier $tier 2>&1); rc=$?
   echo "== $id rc=$rc"
